@@ -133,7 +133,7 @@ impl Mt4 {
                 0.0,
             ),
             Pt4::new(
-                z * x * (1.0 - c) - z * s,
+                z * x * (1.0 - c) - y * s,
                 z * y * (1.0 - c) + x * s,
                 c + z * z * (1.0 - c),
                 0.0,
